@@ -396,7 +396,7 @@ def c04(tier, seed):
     for fam in HB_FAMS:
         if res.harness_error:
             break
-        driver.run_family(res, "C04", fam, "fib-asan", 25000 if q else 1500000, seed, tier, propfilter=False)
+        driver.run_family(res, "C04", fam, "fib-asan", 25000 if q else 600000, seed, tier, propfilter=False)
     if not res.harness_error and res.hb_checks == 0:
         res.harness_error = "the happens-before monitor checked no plain access (sync hook not compiled in?)"
     if not q:
